@@ -564,6 +564,7 @@ func (P *Program) ghostScope(parent *types.Scope, pkg *types.Package, pos token.
 	mk("nonNilPayload", boolT, anyT)
 	mk("offsetOf", intT, anyT)
 	mk("sameArray", boolT, anyT, anyT)
+	mk("disjoint", boolT, anyT, anyT)
 	mk("hasKey", boolT, anyT, anyT)
 	predU16 := types.NewSignatureType(nil, nil, nil, types.NewTuple(types.NewVar(0, nil, "k", types.Typ[types.Uint16])), types.NewTuple(types.NewVar(0, nil, "", boolT)), false)
 	predU32 := types.NewSignatureType(nil, nil, nil, types.NewTuple(types.NewVar(0, nil, "k", types.Typ[types.Uint32])), types.NewTuple(types.NewVar(0, nil, "", boolT)), false)
@@ -1546,6 +1547,23 @@ func (e *specEnv) call(n *ast.CallExpr) Term {
 			return slOff(e.eval(n.Args[0]))
 		case "sameArray":
 			return mkEq(slObj(e.eval(n.Args[0])), slObj(e.eval(n.Args[1])))
+		case "disjoint":
+			// the element address ranges [obj+off*slots, obj+(off+cap)*slots) of two slices do not overlap
+			a, b := e.eval(n.Args[0]), e.eval(n.Args[1])
+			sa, ok1 := e.typeOf(n.Args[0]).Underlying().(*types.Slice)
+			sb, ok2 := e.typeOf(n.Args[1]).Underlying().(*types.Slice)
+			if !ok1 || !ok2 {
+				unsup("spec: disjoint needs two slices")
+			}
+			tt := e.f.tt()
+			lo := func(s Term, el types.Type) Term { return bvAdd(slObj(s), bvMul(slOff(s), i64(tt.slots(el)))) }
+			hi := func(s Term, el types.Type) Term {
+				return bvAdd(slObj(s), bvMul(bvAdd(slOff(s), slCap(s)), i64(tt.slots(el))))
+			}
+			if !isStructType(sa.Elem()) || !isStructType(sb.Elem()) {
+				return mkNot(mkEq(slObj(a), slObj(b)))
+			}
+			return mkOr(ule(hi(a, sa.Elem()), lo(b, sb.Elem())), ule(hi(b, sb.Elem()), lo(a, sa.Elem())))
 		case "hasKey":
 			m := e.eval(n.Args[0])
 			k := e.eval(n.Args[1])
